@@ -355,41 +355,46 @@ func TestVerif_C41(t *testing.T) {
 			cuts = append(cuts, n+1)
 		}
 	}
-	venum.Explore(t, venum.Cfg{Name: "external-torn", Shardable: true}, func(x *venum.X) {
-		n := cuts[x.Choose(len(cuts), "cut")]
-		base := x.Pick("fault", vf41URLcut, vf41URLtail)
-		url := base + fmt.Sprint(n)
-		site := x.Pick("site", "unary", "init", "input")
-		httpT := x.Bool("http")
-		tr := "pipe"
-		if httpT {
-			tr = "http"
+	torn := func(base string) func(x *venum.X) {
+		return func(x *venum.X) {
+			n := cuts[x.Choose(len(cuts), "cut")]
+			url := base + fmt.Sprint(n)
+			site := x.Pick("site", "unary", "init", "input")
+			httpT := x.Bool("http")
+			tr := "pipe"
+			if httpT {
+				tr = "http"
+			}
+			cls := "ext-torn-cut"
+			if base == vf41URLtail {
+				cls = "ext-torn-garbage-tail"
+			}
+			var k vf37Kind
+			switch site {
+			case "unary":
+				k = vf37Kind{Name: "torn-req-unary", Class: cls, Method: "u_ok", X: 5, Via: url}
+			case "init":
+				k = vf37Kind{Name: "torn-req-init", Class: cls, Method: "exch", Stream: 2, X: 6, In: []string{"i"}, Via: url}
+			default:
+				k = vf37Kind{Name: "torn-input", Class: cls, Method: "exch", Stream: 2, X: 6, In: []string{"i", "P" + url, "i"}}
+			}
+			ok := vf37Kind{Name: "u-ok", Class: "ok", Method: "u_ok", X: 5}
+			hist := []*vf37Kind{&k, &ok}
+			store := vf41NewStore()
+			store.preload()
+			cfg := &ExternalLocationConfig{Storage: store, ExternalizeThresholdBytes: 64, URLValidator: nil,
+				HTTPClient: &http.Client{Transport: store}, RetryDelay: 1, MaxRetries: 1}
+			env := &vf37Env{External: cfg, NoCap: true}
+			vf41ExtEnv(env)
+			done := vf41Probe(x, tr, env, hist)
+			run := vf37RunHistory(hist, httpT, env)
+			x.Outcome("%s %s fetch=%d | %s", tr, site, store.fetches, done(run))
 		}
-		cls := "ext-torn-cut"
-		if base == vf41URLtail {
-			cls = "ext-torn-garbage-tail"
-		}
-		var k vf37Kind
-		switch site {
-		case "unary":
-			k = vf37Kind{Name: "torn-req-unary", Class: cls, Method: "u_ok", X: 5, Via: url}
-		case "init":
-			k = vf37Kind{Name: "torn-req-init", Class: cls, Method: "exch", Stream: 2, X: 6, In: []string{"i"}, Via: url}
-		default:
-			k = vf37Kind{Name: "torn-input", Class: cls, Method: "exch", Stream: 2, X: 6, In: []string{"i", "P" + url, "i"}}
-		}
-		ok := vf37Kind{Name: "u-ok", Class: "ok", Method: "u_ok", X: 5}
-		hist := []*vf37Kind{&k, &ok}
-		store := vf41NewStore()
-		store.preload()
-		cfg := &ExternalLocationConfig{Storage: store, ExternalizeThresholdBytes: 64, URLValidator: nil,
-			HTTPClient: &http.Client{Transport: store}, RetryDelay: 1, MaxRetries: 1}
-		env := &vf37Env{External: cfg, NoCap: true}
-		vf41ExtEnv(env)
-		done := vf41Probe(x, tr, env, hist)
-		run := vf37RunHistory(hist, httpT, env)
-		x.Outcome("%s %s fetch=%d | %s", tr, site, store.fetches, done(run))
-	})
+	}
+	venum.Explore(t, venum.Cfg{Name: "external-torn", Shardable: true}, torn(vf41URLcut))
+	// Same positions, but the prefix is followed by 24 bytes that frame a
+	// message (continuation marker + length 16) whose flatbuffer is garbage.
+	venum.Explore(t, venum.Cfg{Name: "external-garbage-tail", Shardable: true}, torn(vf41URLtail))
 
 	// Space C: shared memory on the pipe transport.
 	shm := vf41ShmKinds()
